@@ -57,7 +57,20 @@ fn check(c: &Case, ctx: &Ctx) -> Outcome {
         let last = samples.len() - 1;
         samples[last].0 = samples[0].0.clone();
     }
-    let files = plan(c, samples.len());
+    // one case in six: many inputs in one call (9-20 files of one sample each: the generated samples over and over
+    // under new names), as `ska merge *.skf` hands them over
+    let many_files = !c.nested && (k / 2 + samples.len() + c.groups.len()) % 6 == 0;
+    if many_files {
+        let base = samples.clone();
+        let want = [9usize, 10, 11, 12, 13, 15, 17, 20][(k / 2 + base.len()) % 8];
+        let mut j = 0;
+        while samples.len() < want {
+            let (n, r) = &base[j % base.len()];
+            samples.push((format!("{n}_f{j}"), r.clone()));
+            j += 1;
+        }
+    }
+    let files = if many_files { (0..samples.len()).map(|i| vec![i]).collect() } else { plan(c, samples.len()) };
     let dir = ctx.case_dir();
     let r: Result<(bool, bool), Outcome> = (|| {
         let mut tables = Vec::new();
@@ -140,7 +153,7 @@ fn check(c: &Case, ctx: &Ctx) -> Outcome {
         let n0 = tables[0].nsamples();
         let left_missing = expected.rows.values().any(|r| r[..n0].iter().all(|b| *b == b'-'));
         let right_missing = expected.rows.values().any(|r| r[n0..].iter().all(|b| *b == b'-'));
-        Ok((left_missing && right_missing, c.nested && files.len() >= 3))
+        Ok((left_missing && right_missing || many_files, c.nested && files.len() >= 3))
     })();
     ctx.done(&dir);
     match r {
@@ -153,6 +166,7 @@ fn check(c: &Case, ctx: &Ctx) -> Outcome {
             if k >= 33 { cl.push("128bit"); }
             if files.len() >= 3 { cl.push(">=3_files"); }
             if files.iter().any(|f| f.len() >= 2) { cl.push("multi_sample_input"); }
+            if many_files { cl.push(">=9_input_files_in_one_call"); }
             pass(both, key_of(&(k, rc, &files, c.nested, &samples)), cl)
         }
     }
